@@ -38,6 +38,8 @@ def run_child(calls, timeout=600):
 def compare(dirty, clean):
     vios = []
     a, b = dirty['probe'], clean['probe']
+    if 'Watchdog' in ((a['error'] or {}).get('type'), (b['error'] or {}).get('type')):
+        return []  # stopped by the wall-clock watchdog: not a function of the arguments
     if b.get('args_modified'):
         vios.append(('C11:arguments-modified:' + '+'.join(b['args_modified']), f"research.backtest modified its arguments {b['args_modified']}"))
     if a.get('args_modified') and not b.get('args_modified'):
